@@ -559,5 +559,363 @@ Section RT.
     destruct (negb top && has_key K_BYTES kvs); [reflexivity|].
     destruct (top || has_key K_TYPE kvs); [reflexivity|].
     destruct (unwrap_optional T); try reflexivity.
-    rewrite Eseq. reflexivity.
+    - destruct (find_cls R name) as [c|]; [apply Edc | reflexivity].
+    - rewrite Eseq. reflexivity.
   Qed.
+
+  (* the field relation has_type imposes on a dataclass instance *)
+  Definition field_rel (k : cls) (nv : str * val) (f : field) : Prop :=
+    fst nv = f_name f /\ has_type' (snd nv) (f_ty f) = true
+    /\ (mem_str (fst nv) (c_strip k) = true -> exists y, snd nv = VStr y /\ is_stripped isspace y = true).
+
+  Lemma has_type_data c fl T :
+    has_type' (VData c fl) T = true ->
+    exists k, find_cls R c = Some k /\ c_abstract k = false /\ Forall2 (field_rel k) fl (c_fields k).
+  Proof.
+    intro H. cbn [has_type] in H. destruct (find_cls R c) as [k|]; [|discriminate H].
+    apply andb_true_iff in H. destruct H as [Ha H]. apply negb_true_iff in Ha.
+    exists k. split; [reflexivity|]. split; [exact Ha|]. revert H. generalize (c_fields k) as fs.
+    induction fl as [|[n x] fl IH]; intros [|f fs] H; try discriminate H.
+    - constructor.
+    - apply andb_true_iff in H. destruct H as [H H4]. apply andb_true_iff in H. destruct H as [H H3].
+      apply andb_true_iff in H. destruct H as [H1 H2]. apply str_eqb_eq in H1.
+      constructor; [|apply IH; exact H4].
+      unfold field_rel. cbn [fst snd]. split; [exact H1|]. split; [exact H2|].
+      intro Hm. rewrite Hm in H3. destruct x; try discriminate H3. exists x. split; [reflexivity | exact H3].
+  Qed.
+
+  Lemma cls_facts c k :
+    find_cls R c = Some k ->
+    c_name k = c /\ c <> []
+    /\ NoDup (map f_name (c_fields k))
+    /\ (forall f, In f (c_fields k) -> ~ In (f_name f) markers).
+  Proof.
+    intro Hf. apply find_cls_Some in Hf. destruct Hf as [Hin Hn].
+    unfold registry_wf in Rwf. apply andb_true_iff in Rwf. destruct Rwf as [W W3].
+    apply andb_true_iff in W. destruct W as [W1 W2].
+    pose proof (forallb_In _ _ _ W2 Hin) as Hok. pose proof (forallb_In _ _ _ W3 Hin) as Hne.
+    cbv beta in Hne. rewrite Hn in Hne.
+    unfold cls_ok in Hok. apply andb_true_iff in Hok. destruct Hok as [Hok O3].
+    apply andb_true_iff in Hok. destruct Hok as [O1 O2].
+    split; [exact Hn|]. split; [intro E; rewrite E in Hne; discriminate Hne|].
+    split; [apply nodup_str_NoDup; exact O1|].
+    intros f Hfi. pose proof (forallb_In _ _ _ O2 Hfi) as Hm. cbv beta in Hm.
+    apply andb_true_iff in Hm. destruct Hm as [Hm _]. apply negb_true_iff in Hm.
+    apply mem_str_false. exact Hm.
+  Qed.
+
+  Lemma data_roundtrip top c fl k T :
+    find_cls R c = Some k ->
+    c_abstract k = false ->
+    Forall2 (field_rel k) fl (c_fields k) ->
+    (forall nv, In nv fl -> forall T', has_type' (snd nv) T' = true ->
+                deser' false (serialize enc true (snd nv)) T' = Some (canon (snd nv))) ->
+    deser' top (serialize enc true (VData c fl)) T = Some (canon (VData c fl)).
+  Proof.
+    intros Hfind Habs HF IH.
+    destruct (cls_facts c k Hfind) as [Hname [Hne [ND Hmark]]].
+    assert (Hnames : map fst fl = map f_name (c_fields k)).
+    { apply Forall2_map_eq. eapply Forall2_mono; [|exact HF]. intros a b _ _ [E _]. exact E. }
+    assert (HnotM : forall m, In m markers -> ~ In m (map fst fl)).
+    { intros m Hm Hin. rewrite Hnames in Hin. apply in_map_iff in Hin. destruct Hin as [f [E Hf]].
+      apply (Hmark f Hf). rewrite E. exact Hm. }
+    set (O := (K_TYPE, JStr c) :: map (vmap (serialize enc true)) fl).
+    assert (Hkeys : map fst O = K_TYPE :: map fst fl).
+    { unfold O. cbn [map fst]. rewrite map_fst_vmap. reflexivity. }
+    assert (NDO : NoDup (map fst O)).
+    { rewrite Hkeys. constructor; [apply HnotM; exact marker_type|]. rewrite Hnames. exact ND. }
+    rewrite serialize_data. fold O. rewrite (dict_of_fresh O NDO).
+    assert (K1 : has_key K_BYTESIO O = false).
+    { apply has_key_false. rewrite Hkeys. intros [E|Hin]; [exact (type_ne_bytesio (eq_sym E))|].
+      exact (HnotM _ marker_bytesio Hin). }
+    assert (K2 : has_key K_BYTES O = false).
+    { apply has_key_false. rewrite Hkeys. intros [E|Hin]; [exact (type_ne_bytes (eq_sym E))|].
+      exact (HnotM _ marker_bytes Hin). }
+    assert (K3 : has_key K_TYPE O = true).
+    { apply has_key_In. rewrite Hkeys. left; reflexivity. }
+    rewrite deser_obj, K1, K2, K3. rewrite !andb_false_r, orb_true_r.
+    unfold dc.
+    assert (A : assoc K_TYPE O = Some (JStr c)).
+    { unfold O. cbn [assoc]. rewrite str_eqb_refl. reflexivity. }
+    rewrite A.
+    assert (RC : resolve_cls R (Some (JStr c)) None = Some (Some k)).
+    { unfold resolve_cls. destruct c as [|c0 r]; [exfalso; apply Hne; reflexivity|]. rewrite Hfind. reflexivity. }
+    rewrite RC.
+    assert (Hallkeys : forall f, In f (c_fields k) -> In (f_name f) (map fst O)).
+    { intros f Hf. rewrite Hkeys, Hnames. right. apply in_map. exact Hf. }
+    (* kwargs *)
+    assert (KW : flat_map (fun kv => entries_for k (map fst O) (fst kv) (fun T' => deser' false (snd kv) T')) O
+                 = map (fun nv => (fst nv, Some (canon (snd nv)))) fl).
+    { unfold O at 2. cbn [flat_map fst snd]. unfold entries_for at 1.
+      rewrite (find_field_None k K_TYPE).
+      2:{ rewrite <- Hnames. apply HnotM. exact marker_type. }
+      rewrite !(shim_nil k (map fst O)) by exact Hallkeys. cbn [app].
+      rewrite flat_map_map. apply flat_map_singleton. intros nv Hnv.
+      unfold vmap. cbn [fst snd]. unfold entries_for.
+      rewrite !(shim_nil k (map fst O)) by exact Hallkeys. rewrite app_nil_r.
+      destruct (Forall2_In_l _ _ _ _ HF Hnv) as [f [Hf [E1 [E2 _]]]].
+      rewrite E1. rewrite (find_field_In k f ND Hf). rewrite (IH nv Hnv _ E2). reflexivity. }
+    rewrite KW. unfold construct. rewrite Habs.
+    set (KWl := map (fun nv : str * val => (fst nv, Some (canon (snd nv)))) fl).
+    assert (NDK : NoDup (map fst KWl)).
+    { replace (map fst KWl) with (map fst fl); [rewrite Hnames; exact ND|].
+      unfold KWl. rewrite map_map. reflexivity. }
+    assert (SQ : sequence (map (fun f => match assoc (f_name f) KWl with
+                                         | Some r => r
+                                         | None => f_default f
+                                         end) (c_fields k))
+                 = Some (map (fun nv => canon (snd nv)) fl)).
+    { apply sequence_Forall2. eapply Forall2_mono; [|exact HF].
+      intros nv f Hnv Hf [E1 _]. cbv beta.
+      rewrite (assoc_NoDup_In (f_name f) (Some (canon (snd nv))) KWl NDK); [reflexivity|].
+      unfold KWl. apply in_map_iff. exists nv. split; [rewrite E1; reflexivity | exact Hnv]. }
+    rewrite SQ. rewrite <- Hnames. rewrite combine_map_map.
+    change (map (fun x : str * val => (fst x, canon (snd x))) fl) with (map (vmap canon) fl).
+    unfold post_init. rewrite sequence_map_id.
+    - cbn [option_map]. rewrite Hname, canon_data. reflexivity.
+    - intros nv' Hnv'. apply in_map_iff in Hnv'. destruct Hnv' as [nv [E Hnv]]. subst nv'.
+      unfold vmap. cbn [fst snd].
+      destruct (mem_str (fst nv) (c_strip k)) eqn:Em; [|reflexivity].
+      destruct (Forall2_In_l _ _ _ _ HF Hnv) as [f [Hf [_ [_ E3]]]].
+      destruct (E3 Em) as [y [Ey Hy]]. rewrite Ey. cbn [canon]. unfold strip.
+      rewrite (strip_stripped isspace y Hy). reflexivity.
+  Qed.
+
+  Lemma has_key_singleton_bytes_io (j : json) : has_key K_BYTESIO [(K_BYTES, j)] = false.
+  Proof. reflexivity. Qed.
+  Lemma has_key_singleton_bytes (j : json) : has_key K_BYTES [(K_BYTES, j)] = true.
+  Proof. reflexivity. Qed.
+  Lemma assoc_singleton_bytes (j : json) : assoc K_BYTES [(K_BYTES, j)] = Some j.
+  Proof. reflexivity. Qed.
+  Lemma has_key_singleton_bytesio (j : json) : has_key K_BYTESIO [(K_BYTESIO, j)] = true.
+  Proof. reflexivity. Qed.
+  Lemma assoc_singleton_bytesio (j : json) : assoc K_BYTESIO [(K_BYTESIO, j)] = Some j.
+  Proof. reflexivity. Qed.
+
+  Lemma bytesio_b64 c p : fst (bytesio_to_base64 enc {| b_content := c; b_pos := p |}) = enc c.
+  Proof. reflexivity. Qed.
+
+  (* sequences (list / tuple / set) share one argument *)
+  Lemma seq_roundtrip (l : list val) T :
+    Forall (fun v => forall T, has_type' v T = true -> keys_not_markers v = true ->
+                               deser' false (serialize enc true v) T = Some (canon v)) l ->
+    match unwrap_optional T with
+    | TList a => forallb (fun x => has_type' x (elem_ty a)) l
+    | _ => forallb plain l
+    end = true ->
+    forallb keys_not_markers l = true ->
+    deser' false (JList (map (serialize enc true) l)) T = Some (VList (map canon l)).
+  Proof.
+    intros IH H K. rewrite Forall_forall in IH. cbn [deser].
+    assert (Hplain : forallb plain l = true ->
+                     Some (embed (JList (map (serialize enc true) l))) = Some (VList (map canon l))).
+    { intro Hp. cbn [embed]. f_equal. f_equal. rewrite map_map. apply map_ext_in.
+      intros x Hx. apply embed_plain. exact (forallb_In _ _ _ Hp Hx). }
+    destruct (unwrap_optional T) as [| | | | | |a| | | |]; try (exact (Hplain H)).
+    rewrite map_map. rewrite (sequence_map_some _ canon); [reflexivity|].
+    intros x Hx. apply IH; [exact Hx | exact (forallb_In _ _ _ H Hx) | exact (forallb_In _ _ _ K Hx)].
+  Qed.
+
+  Theorem roundtrip_value : forall v T,
+    has_type' v T = true -> keys_not_markers v = true ->
+    deser' false (serialize enc true v) T = Some (canon v).
+  Proof.
+    induction v as [| | | | | | | |l IH|l IH|l IH|kvs IH|c fl IH|] using val_ind'; intros T H K.
+    - reflexivity.
+    - reflexivity.
+    - reflexivity.
+    - reflexivity.
+    - (* VStr *)
+      cbn [has_type] in H. cbn [serialize deser canon].
+      destruct (unwrap_optional T); try reflexivity; discriminate H.
+    - (* VBytes *)
+      cbn [serialize canon]. rewrite deser_obj. cbn [negb andb].
+      rewrite has_key_singleton_bytes_io, has_key_singleton_bytes, assoc_singleton_bytes.
+      cbn [b64_bytes]. rewrite dec_enc. reflexivity.
+    - (* VBytearray *)
+      cbn [serialize canon]. rewrite deser_obj. cbn [negb andb].
+      rewrite has_key_singleton_bytes_io, has_key_singleton_bytes, assoc_singleton_bytes.
+      cbn [b64_bytes]. rewrite dec_enc. reflexivity.
+    - (* VBytesIO *)
+      cbn [serialize canon]. rewrite bytesio_b64. rewrite deser_obj. cbn [negb andb].
+      rewrite has_key_singleton_bytesio, assoc_singleton_bytesio.
+      cbn [b64_bytes]. rewrite dec_enc. reflexivity.
+    - cbn [has_type] in H. cbn [keys_not_markers] in K. cbn [serialize canon].
+      apply seq_roundtrip; assumption.
+    - cbn [has_type] in H. cbn [keys_not_markers] in K. cbn [serialize canon].
+      apply seq_roundtrip; assumption.
+    - cbn [has_type] in H. cbn [keys_not_markers] in K. cbn [serialize canon].
+      apply seq_roundtrip; assumption.
+    - (* VDict *)
+      cbn [keys_not_markers] in K.
+      pose proof (serialize_dict enc true kvs) as ES.
+      set (D0 := dict_of (rk kvs)) in ES.
+      set (O := map (vmap (serialize enc true)) D0) in ES.
+      assert (HM : forall m, In m markers -> has_key m O = false).
+      { intros m Hm. apply has_key_false. unfold O. rewrite map_fst_vmap. intro Hin.
+        apply rk_dict_keys in Hin. destruct Hin as [kv [Hkv E]].
+        pose proof (forallb_In _ _ _ K Hkv) as Hk. cbv beta in Hk.
+        apply andb_true_iff in Hk. destruct Hk as [Hk _]. apply negb_true_iff in Hk.
+        apply mem_str_false in Hk. apply Hk. rewrite E. exact Hm. }
+      assert (Hplain : forallb (fun kx => plain (snd kx)) kvs = true ->
+                       Some (embed (JObj O)) = Some (canon (VDict kvs))).
+      { intro Hp. rewrite <- ES. f_equal. apply embed_plain. exact Hp. }
+      rewrite ES, deser_obj.
+      rewrite (HM _ marker_bytesio), (HM _ marker_bytes), (HM _ marker_type). cbn [negb andb orb].
+      cbn [has_type] in H.
+      destruct (unwrap_optional T) as [| |n| | | | |kv| | |]; try (exact (Hplain H)).
+      + destruct (find_cls R n); [discriminate H | exact (Hplain H)].
+      + unfold O. rewrite map_map.
+        rewrite (sequence_map_some _ (fun kx => (KStr (fst kx), canon (snd kx)))).
+        * cbn [option_map]. rewrite canon_dict. fold D0. rewrite map_map. reflexivity.
+        * intros [k x] Hin. unfold vmap. cbn [fst snd].
+          destruct (rk_dict_In _ _ _ Hin) as [k0 [Hin0 _]].
+          rewrite Forall_forall in IH. pose proof (IH (k0, x) Hin0 (value_ty kv)) as IHx.
+          cbn [snd] in IHx. rewrite IHx; [reflexivity| |].
+          -- exact (forallb_In _ _ _ H Hin0).
+          -- pose proof (forallb_In _ _ _ K Hin0) as Hk. cbv beta in Hk.
+             apply andb_true_iff in Hk. destruct Hk as [_ Hk]. exact Hk.
+    - (* VData *)
+      destruct (has_type_data c fl T H) as [k [Hfind [Habs HF]]].
+      apply (data_roundtrip false c fl k T Hfind Habs HF).
+      intros nv Hnv T' HT. rewrite Forall_forall in IH. apply (IH nv Hnv T' HT).
+      cbn [keys_not_markers] in K. exact (forallb_In _ _ _ K Hnv).
+    - reflexivity.
+  Qed.
+
+  Theorem roundtrip_top : forall c fl,
+    has_type' (VData c fl) TAny = true -> keys_not_markers (VData c fl) = true ->
+    from_json dec isspace R (to_json enc (VData c fl)) = Some (canon (VData c fl)).
+  Proof.
+    intros c fl H K.
+    destruct (has_type_data c fl TAny H) as [k [Hfind [Habs HF]]].
+    assert (E : deser' true (serialize enc true (VData c fl)) TAny = Some (canon (VData c fl))).
+    { apply (data_roundtrip true c fl k TAny Hfind Habs HF).
+      intros nv Hnv T' HT. apply roundtrip_value; [exact HT|].
+      cbn [keys_not_markers] in K. exact (forallb_In _ _ _ K Hnv). }
+    unfold to_json, serialize_extraction.
+    rewrite serialize_data in *. unfold from_json.
+    set (O := dict_of ((K_TYPE, JStr c) :: map (vmap (serialize enc true)) fl)) in *.
+    assert (K3 : has_key K_TYPE O = true).
+    { apply has_key_In. unfold O. apply dict_of_keys. left; reflexivity. }
+    rewrite K3. exact E.
+  Qed.
+
+  (* ---------------------------------------------------------------------------------------- *)
+  (* 3. corollaries                                                                            *)
+
+  Lemma rk_kstr (L : list (str * val)) : rk (map kstr L) = L.
+  Proof.
+    unfold rk. rewrite map_map. rewrite <- (map_id L) at 2. apply map_ext. intros [k x]. reflexivity.
+  Qed.
+
+  Theorem serialize_canon : forall b v, serialize enc b (canon v) = serialize enc b v.
+  Proof.
+    intro b.
+    induction v as [| | | | | | | |l IH|l IH|l IH|kvs IH|c fl IH|] using val_ind'; try reflexivity.
+    - cbn [canon serialize]. f_equal. rewrite map_map. apply map_ext_in.
+      intros x Hx. rewrite Forall_forall in IH. exact (IH x Hx).
+    - cbn [canon serialize]. f_equal. rewrite map_map. apply map_ext_in.
+      intros x Hx. rewrite Forall_forall in IH. exact (IH x Hx).
+    - cbn [canon serialize]. f_equal. rewrite map_map. apply map_ext_in.
+      intros x Hx. rewrite Forall_forall in IH. exact (IH x Hx).
+    - rewrite canon_dict, !serialize_dict. f_equal. rewrite rk_kstr.
+      rewrite dict_of_vmap, dict_of_idem, vmap_vmap. apply vmap_ext_in.
+      intros k x Hin.
+      exact (rk_dict_Forall (fun x => serialize enc b (canon x) = serialize enc b x) kvs IH k x Hin).
+    - rewrite canon_data, !serialize_data. rewrite vmap_vmap. f_equal. f_equal. f_equal.
+      apply vmap_ext_in. intros k x Hin. rewrite Forall_forall in IH. exact (IH (k, x) Hin).
+  Qed.
+
+  Lemma dumps_ok : forall b v, no_other v = true -> encodable (serialize enc b v) = true.
+  Proof.
+    intro b.
+    induction v as [| | | | | | | |l IH|l IH|l IH|kvs IH|c fl IH|] using val_ind'; intro Hn;
+      try reflexivity; try discriminate Hn; try (destruct b; reflexivity).
+    - cbn [no_other] in Hn. cbn [serialize encodable]. apply forallb_forall. intros j Hj.
+      apply in_map_iff in Hj. destruct Hj as [x [E Hx]]. subst j.
+      rewrite Forall_forall in IH. apply (IH x Hx). exact (forallb_In _ _ _ Hn Hx).
+    - cbn [no_other] in Hn. cbn [serialize encodable]. apply forallb_forall. intros j Hj.
+      apply in_map_iff in Hj. destruct Hj as [x [E Hx]]. subst j.
+      rewrite Forall_forall in IH. apply (IH x Hx). exact (forallb_In _ _ _ Hn Hx).
+    - cbn [no_other] in Hn. cbn [serialize encodable]. apply forallb_forall. intros j Hj.
+      apply in_map_iff in Hj. destruct Hj as [x [E Hx]]. subst j.
+      rewrite Forall_forall in IH. apply (IH x Hx). exact (forallb_In _ _ _ Hn Hx).
+    - cbn [no_other] in Hn. rewrite serialize_dict. cbn [encodable]. apply forallb_forall.
+      intros kj Hj. apply in_map_iff in Hj. destruct Hj as [[k x] [E Hx]]. subst kj.
+      unfold vmap. cbn [fst snd]. destruct (rk_dict_In _ _ _ Hx) as [k0 [Hin _]].
+      rewrite Forall_forall in IH. apply (IH (k0, x) Hin). exact (forallb_In _ _ _ Hn Hin).
+    - cbn [no_other] in Hn. rewrite serialize_data. cbn [encodable]. apply forallb_forall.
+      intros [k j] Hj. apply dict_of_In in Hj. cbn [snd]. destruct Hj as [E|Hj].
+      + inversion E; subst. reflexivity.
+      + apply in_map_iff in Hj. destruct Hj as [[n x] [E Hx]]. unfold vmap in E. cbn [fst snd] in E.
+        inversion E; subst. rewrite Forall_forall in IH. apply (IH (k, x) Hx).
+        exact (forallb_In _ _ _ Hn Hx).
+  Qed.
+
+  (* rendered keys of every dict are pairwise distinct *)
+  Fixpoint dict_keys_distinct (v : val) : bool :=
+    match v with
+    | VList l | VTuple l | VSet l => forallb dict_keys_distinct l
+    | VDict kvs =>
+        nodup_str (map (fun kv => render (fst kv)) kvs)
+        && forallb (fun kv => dict_keys_distinct (snd kv)) kvs
+    | VData _ fl => forallb (fun nv => dict_keys_distinct (snd nv)) fl
+    | _ => true
+    end.
+
+  Lemma payloads_canon : forall v, dict_keys_distinct v = true -> payloads (canon v) = payloads v.
+  Proof.
+    induction v as [| | | | | | | |l IH|l IH|l IH|kvs IH|c fl IH|] using val_ind'; intro Hd;
+      try reflexivity.
+    - cbn [dict_keys_distinct] in Hd. cbn [canon payloads]. rewrite flat_map_map.
+      apply flat_map_ext_in. intros x Hx. rewrite Forall_forall in IH.
+      apply (IH x Hx). exact (forallb_In _ _ _ Hd Hx).
+    - cbn [dict_keys_distinct] in Hd. cbn [canon payloads]. rewrite flat_map_map.
+      apply flat_map_ext_in. intros x Hx. rewrite Forall_forall in IH.
+      apply (IH x Hx). exact (forallb_In _ _ _ Hd Hx).
+    - cbn [dict_keys_distinct] in Hd. cbn [canon payloads]. rewrite flat_map_map.
+      apply flat_map_ext_in. intros x Hx. rewrite Forall_forall in IH.
+      apply (IH x Hx). exact (forallb_In _ _ _ Hd Hx).
+    - cbn [dict_keys_distinct] in Hd. apply andb_true_iff in Hd. destruct Hd as [Hd1 Hd2].
+      rewrite canon_dict. rewrite dict_of_fresh.
+      2:{ unfold rk. rewrite map_map. cbn [fst]. apply nodup_str_NoDup. exact Hd1. }
+      cbn [payloads]. unfold rk. rewrite !flat_map_map. apply flat_map_ext_in.
+      intros [k x] Hx. unfold kstr, vmap. cbn [fst snd]. rewrite Forall_forall in IH.
+      apply (IH (k, x) Hx). exact (forallb_In _ _ _ Hd2 Hx).
+    - cbn [dict_keys_distinct] in Hd. rewrite canon_data. cbn [payloads]. rewrite flat_map_map.
+      apply flat_map_ext_in. intros [k x] Hx. unfold vmap. cbn [fst snd].
+      rewrite Forall_forall in IH. apply (IH (k, x) Hx). exact (forallb_In _ _ _ Hd Hx).
+  Qed.
+
+  Theorem roundtrip_pipeline : forall c fl, let v := VData c fl in
+    has_type' v TAny = true -> keys_not_markers v = true -> no_other v = true ->
+    exists w, pipeline enc dec isspace R v = Some w /\ w = canon v
+              /\ to_json enc w = to_json enc v /\ class_of w = Some c
+              /\ (dict_keys_distinct v = true -> payloads w = payloads v)
+              /\ (forall b, serialize enc b w = serialize enc b v).
+  Proof.
+    intros c fl v H K Nn. exists (canon v).
+    assert (TJ : to_json enc v = serialize enc true v).
+    { unfold v, to_json, serialize_extraction. rewrite serialize_data. reflexivity. }
+    split.
+    { unfold pipeline, json_text_roundtrip. rewrite TJ. rewrite (dumps_ok true v Nn).
+      rewrite <- TJ. exact (roundtrip_top c fl H K). }
+    split; [reflexivity|].
+    split.
+    { unfold to_json, serialize_extraction. rewrite serialize_canon. reflexivity. }
+    split.
+    { unfold v. rewrite canon_data. reflexivity. }
+    split.
+    { intro Hd. exact (payloads_canon v Hd). }
+    intro b. apply serialize_canon.
+  Qed.
+End RT.
+
+Print Assumptions val_ind'.
+Print Assumptions roundtrip_value.
+Print Assumptions roundtrip_top.
+Print Assumptions serialize_canon.
+Print Assumptions dumps_ok.
+Print Assumptions payloads_canon.
+Print Assumptions roundtrip_pipeline.
